@@ -549,7 +549,9 @@ theorem check_extends (W : World) (ex : Bool) : ∀ n, RecExtends (check W ex n)
         | some bms =>
           simp only [hr]
           obtain ⟨new, hnew⟩ := h1
-          exact ⟨((ex, a, p, v), unifyBM bms) :: new, by simp [hnew]⟩
+          split
+          · exact ⟨new, by simp [hnew]⟩
+          · exact ⟨((ex, a, p, v), unifyBM bms) :: new, by simp [hnew]⟩
 
 theorem runHist_extends (W : World) (fuel : Nat) : ∀ (h : List Query) (st : St),
     CacheExtends st.cache (runHist W fuel st h).cache := by
@@ -718,16 +720,20 @@ theorem check_spec (ex : Bool) : ∀ (n : Nat) (st : St) (p : Pid) (a : Nat) (v 
         rw [hb] at hsem
         simp only [Option.map_some] at hsem
         simp only []
-        refine ⟨hsem, ?_, by simpa using hpop⟩
-        intro e2 a2 p2 v2 bm2 hmem
-        have : ((e2, a2, p2, v2), bm2) = ((ex, a, p, v), unifyBM bms) ∨
-            ((e2, a2, p2, v2), bm2) ∈ (evalMembers (check W ex n) ex st1 (W.req p a v)).2.cache := by
-          simpa using hmem
-        cases this with
-        | inl h =>
-          cases h
-          rw [semB_stable W rk hr ex (rk p (W.tobj v) + 1) (n + 1) p a v (by omega) hn, ← hsem]
-        | inr h => exact c1 e2 a2 p2 v2 bm2 h
+        refine ⟨hsem, ?_, ?_⟩
+        · split
+          · intro e2 a2 p2 v2 bm2 hmem
+            exact c1 e2 a2 p2 v2 bm2 (by simpa using hmem)
+          · intro e2 a2 p2 v2 bm2 hmem
+            have : ((e2, a2, p2, v2), bm2) = ((ex, a, p, v), unifyBM bms) ∨
+                ((e2, a2, p2, v2), bm2) ∈ (evalMembers (check W ex n) ex st1 (W.req p a v)).2.cache := by
+              simpa using hmem
+            cases this with
+            | inl h =>
+              cases h
+              rw [semB_stable W rk hr ex (rk p (W.tobj v) + 1) (n + 1) p a v (by omega) hn, ← hsem]
+            | inr h => exact c1 e2 a2 p2 v2 bm2 h
+        · split <;> simpa using hpop
       | none =>
         rw [hb] at hsem
         simp only [Option.map_none] at hsem
@@ -769,6 +775,270 @@ theorem answerAfter_eq_semB (W : World) (rk : Rank) (fuel : Nat) (h : List Query
     (by rw [hinv.2]; intro e he; cases he)
   unfold answerAfter
   exact hstep.1
+
+/-! ### Recursive worlds: the verdict when answers are cached at top level only (5ad1557) -/
+
+def atomV (W : World) (ex : Bool) (n : Nat) (S : List (Pid × Nat)) : Atom → Bool
+  | .const b => b
+  | .anyOk => !ex
+  | .bound _ _ => true
+  | .sub p a v => guardVerdict W ex n S p a v
+
+theorem guardVerdict_succ (W : World) (ex : Bool) (n : Nat) (S : List (Pid × Nat)) (p : Pid) (a : Nat) (v : Vid) :
+    guardVerdict W ex (n + 1) S p a v =
+      if S.contains (p, W.tobj v) then true
+      else (W.req p a v).all fun m => m.all (atomV W ex n (S ++ [(p, W.tobj v)])) := by
+  simp only [guardVerdict]
+  rfl
+
+/-- More fuel and more assumptions never turn an accepted pair into a rejected one. -/
+theorem guardVerdict_mono (W : World) (ex : Bool) : ∀ (n m : Nat) (S S' : List (Pid × Nat)) (p : Pid) (a : Nat) (v : Vid),
+    n ≤ m → (∀ e ∈ S, e ∈ S') → guardVerdict W ex n S p a v = true → guardVerdict W ex m S' p a v = true := by
+  intro n
+  induction n with
+  | zero => intro m S S' p a v _ _ h; simp [guardVerdict] at h
+  | succ n ih =>
+    intro m S S' p a v hnm hsub h
+    cases m with
+    | zero => omega
+    | succ m =>
+      rw [guardVerdict_succ] at h ⊢
+      by_cases hc' : S'.contains (p, W.tobj v) = true
+      · rw [if_pos hc']
+      · rw [if_neg hc']
+        have hc : ¬ S.contains (p, W.tobj v) = true := by
+          intro hh
+          apply hc'
+          have : (p, W.tobj v) ∈ S := by simpa using hh
+          simpa using hsub _ this
+        rw [if_neg hc] at h
+        rw [List.all_eq_true] at h ⊢
+        intro mem hmem
+        have h2 := h mem hmem
+        rw [List.all_eq_true] at h2 ⊢
+        intro at' hat
+        have h3 := h2 at' hat
+        cases at' with
+        | const b => exact h3
+        | anyOk => exact h3
+        | bound tv b => rfl
+        | sub p' a' v' =>
+          simp only [atomV] at h3 ⊢
+          apply ih m _ _ p' a' v' (by omega) _ h3
+          intro e he
+          have : e ∈ S ∨ e = (p, W.tobj v) := by simpa using he
+          cases this with
+          | inl h' => simpa using Or.inl (hsub e h')
+          | inr h' => simp [h']
+
+/-- Every cached key is accepted by the cache-free algorithm with fuel `N`, in the key's own mode. -/
+def CacheV (W : World) (N : Nat) (c : List (CKey × BMap)) : Prop :=
+  ∀ e a p v bm, ((e, a, p, v), bm) ∈ c → guardVerdict W e N [] p a v = true
+
+/-- What a nested `can_assign` (an assumption is in force) does: it leaves cache and stack alone, is at
+least as permissive as the cache-free algorithm and at most as permissive as that algorithm with
+`N` more fuel. -/
+def RecG (W : World) (ex : Bool) (N : Nat) (rec : St → Pid → Nat → Vid → Ans × St) (n : Nat) : Prop :=
+  ∀ st p a v, CacheV W N st.cache → st.stack ≠ [] →
+    (guardVerdict W ex n st.stack p a v = true → (rec st p a v).1.isSome = true) ∧
+    ((rec st p a v).1.isSome = true → guardVerdict W ex (n + N) st.stack p a v = true) ∧
+    (rec st p a v).2.stack = st.stack ∧ (rec st p a v).2.cache = st.cache
+
+theorem evalAtoms_guard (W : World) (ex : Bool) (N : Nat) (rec : St → Pid → Nat → Vid → Ans × St) (n : Nat)
+    (hrec : RecG W ex N rec n) : ∀ (as : List Atom) (st : St), CacheV W N st.cache → st.stack ≠ [] →
+    (as.all (atomV W ex n st.stack) = true → (evalAtoms rec ex st as).1.isSome = true) ∧
+    ((evalAtoms rec ex st as).1.isSome = true → as.all (atomV W ex (n + N) st.stack) = true) ∧
+    (evalAtoms rec ex st as).2.stack = st.stack ∧ (evalAtoms rec ex st as).2.cache = st.cache := by
+  intro as
+  induction as with
+  | nil => intro st _ _; exact ⟨fun _ => rfl, fun _ => rfl, rfl, rfl⟩
+  | cons a as ih =>
+    intro st hc hs
+    have h1 : (atomV W ex n st.stack a = true → (evalAtom rec ex st a).1.isSome = true) ∧
+        ((evalAtom rec ex st a).1.isSome = true → atomV W ex (n + N) st.stack a = true) ∧
+        (evalAtom rec ex st a).2.stack = st.stack ∧ (evalAtom rec ex st a).2.cache = st.cache := by
+      cases a with
+      | const b => cases b <;> simp [evalAtom, atomV]
+      | anyOk => cases ex <;> simp [evalAtom, atomV]
+      | bound tv b => simp [evalAtom, atomV]
+      | sub p' a' v' => exact hrec st p' a' v' hc hs
+    obtain ⟨l1, u1, s1, c1⟩ := h1
+    have hc' : CacheV W N (evalAtom rec ex st a).2.cache := by rw [c1]; exact hc
+    have hs' : (evalAtom rec ex st a).2.stack ≠ [] := by rw [s1]; exact hs
+    obtain ⟨l2, u2, s2, c2⟩ := ih (evalAtom rec ex st a).2 hc' hs'
+    rw [s1] at l2 u2
+    simp only [evalAtoms, List.all_cons, Bool.and_eq_true]
+    cases hb : (evalAtom rec ex st a).1 with
+    | none =>
+      simp only []
+      refine ⟨?_, ?_, s1, c1⟩
+      · intro h; have := l1 h.1; rw [hb] at this; simp at this
+      · intro h; simp at h
+    | some m =>
+      simp only []
+      refine ⟨?_, ?_, by rw [s2, s1], by rw [c2, c1]⟩
+      · intro h
+        have := l2 h.2
+        cases hr : (evalAtoms rec ex (evalAtom rec ex st a).2 as).1 with
+        | none => rw [hr] at this; simp at this
+        | some ms => simp
+      · intro h
+        refine ⟨u1 (by rw [hb]; rfl), u2 ?_⟩
+        cases hr : (evalAtoms rec ex (evalAtom rec ex st a).2 as).1 with
+        | none => rw [hr] at h; simp at h
+        | some ms => rfl
+
+theorem evalMembers_guard (W : World) (ex : Bool) (N : Nat) (rec : St → Pid → Nat → Vid → Ans × St) (n : Nat)
+    (hrec : RecG W ex N rec n) : ∀ (ms : List (List Atom)) (st : St), CacheV W N st.cache → st.stack ≠ [] →
+    ((ms.all fun m => m.all (atomV W ex n st.stack)) = true → (evalMembers rec ex st ms).1.isSome = true) ∧
+    ((evalMembers rec ex st ms).1.isSome = true → (ms.all fun m => m.all (atomV W ex (n + N) st.stack)) = true) ∧
+    (evalMembers rec ex st ms).2.stack = st.stack ∧ (evalMembers rec ex st ms).2.cache = st.cache := by
+  intro ms
+  induction ms with
+  | nil => intro st _ _; exact ⟨fun _ => rfl, fun _ => rfl, rfl, rfl⟩
+  | cons m ms ih =>
+    intro st hc hs
+    obtain ⟨l1, u1, s1, c1⟩ := evalAtoms_guard W ex N rec n hrec m st hc hs
+    have hc' : CacheV W N (evalAtoms rec ex st m).2.cache := by rw [c1]; exact hc
+    have hs' : (evalAtoms rec ex st m).2.stack ≠ [] := by rw [s1]; exact hs
+    obtain ⟨l2, u2, s2, c2⟩ := ih (evalAtoms rec ex st m).2 hc' hs'
+    rw [s1] at l2 u2
+    simp only [evalMembers, List.all_cons, Bool.and_eq_true]
+    cases hb : (evalAtoms rec ex st m).1 with
+    | none =>
+      simp only []
+      refine ⟨?_, ?_, s1, c1⟩
+      · intro h; have := l1 h.1; rw [hb] at this; simp at this
+      · intro h; simp at h
+    | some bms =>
+      simp only []
+      refine ⟨?_, ?_, by rw [s2, s1], by rw [c2, c1]⟩
+      · intro h
+        have := l2 h.2
+        cases hr : (evalMembers rec ex (evalAtoms rec ex st m).2 ms).1 with
+        | none => rw [hr] at this; simp at this
+        | some x => simp
+      · intro h
+        refine ⟨u1 (by rw [hb]; rfl), u2 ?_⟩
+        cases hr : (evalMembers rec ex (evalAtoms rec ex st m).2 ms).1 with
+        | none => rw [hr] at h; simp at h
+        | some x => rfl
+
+/-- One protocol check with top-level-only caching, from any state whose cache is `CacheV N`: lower and
+upper bound of the verdict by the cache-free algorithm, the stack restored, the cache untouched when
+an assumption is in force, and extended by at most the answered key at top level. -/
+theorem check_guard (W : World) (ex : Bool) (N : Nat) (hto : topOnly = true) : ∀ (n : Nat) (st : St) (p : Pid) (a : Nat) (v : Vid),
+    CacheV W N st.cache →
+    (guardVerdict W ex n st.stack p a v = true → (check W ex n st p a v).1.isSome = true) ∧
+    ((check W ex n st p a v).1.isSome = true → guardVerdict W ex (n + N) st.stack p a v = true) ∧
+    (check W ex n st p a v).2.stack = st.stack ∧
+    (st.stack ≠ [] → (check W ex n st p a v).2.cache = st.cache) ∧
+    ((check W ex n st p a v).2.cache = st.cache ∨
+      ∃ bm, (check W ex n st p a v).1 = some bm ∧ (check W ex n st p a v).2.cache = ((ex, a, p, v), bm) :: st.cache) := by
+  intro n
+  induction n with
+  | zero =>
+    intro st p a v _
+    simp [check, guardVerdict]
+  | succ n ih =>
+    intro st p a v hc
+    simp only [check]
+    cases hl : st.cache.lookup (ex, a, p, v) with
+    | some bm =>
+      simp only []
+      refine ⟨fun _ => by first | rfl | trivial, ?_, by first | rfl | trivial, fun _ => by first | rfl | trivial,
+        Or.inl (by first | rfl | trivial)⟩
+      intro _
+      have hv := hc ex a p v bm (lookup_mem _ _ _ hl)
+      exact guardVerdict_mono W ex N (n + 1 + N) [] st.stack p a v (by omega) (by intro e he; cases he) hv
+    | none =>
+      simp only []
+      by_cases hg : st.stack.contains (p, W.tobj v) = true
+      · rw [if_pos hg]
+        refine ⟨fun _ => rfl, ?_, rfl, fun _ => rfl, Or.inl rfl⟩
+        intro _
+        have : n + 1 + N = (n + N) + 1 := by omega
+        rw [this, guardVerdict_succ, if_pos hg]
+      · rw [if_neg hg]
+        obtain ⟨st1, hst1⟩ : ∃ st1 : St, st1 = { st with stack := st.stack ++ [(p, W.tobj v)] } := ⟨_, rfl⟩
+        rw [← hst1]
+        have hst1s : st1.stack = st.stack ++ [(p, W.tobj v)] := by rw [hst1]
+        have hst1c : st1.cache = st.cache := by rw [hst1]
+        have hne : st1.stack ≠ [] := by rw [hst1s]; simp
+        have hrec : RecG W ex N (check W ex n) n := by
+          intro st' p' a' v' hc' hs'
+          obtain ⟨l, u, s, c, _⟩ := ih st' p' a' v' hc'
+          exact ⟨l, u, s, c hs'⟩
+        obtain ⟨l1, u1, s1, c1⟩ := evalMembers_guard W ex N (check W ex n) n hrec (W.req p a v) st1
+          (by rw [hst1c]; exact hc) hne
+        rw [hst1s] at l1 u1
+        have hpop : (evalMembers (check W ex n) ex st1 (W.req p a v)).2.stack.dropLast = st.stack := by
+          rw [s1, hst1s]; simp
+        cases hb : (evalMembers (check W ex n) ex st1 (W.req p a v)).1 with
+        | none =>
+          simp only []
+          refine ⟨?_, ?_, by simpa using hpop, fun _ => by simpa [hst1c] using c1, Or.inl (by simpa [hst1c] using c1)⟩
+          · intro h
+            rw [guardVerdict_succ, if_neg hg] at h
+            have := l1 h
+            rw [hb] at this; simp at this
+          · intro h; simp at h
+        | some bms =>
+          simp only []
+          have hU : guardVerdict W ex (n + 1 + N) st.stack p a v = true := by
+            have : n + 1 + N = (n + N) + 1 := by omega
+            rw [this, guardVerdict_succ, if_neg hg]
+            exact u1 (by rw [hb]; rfl)
+          refine ⟨fun _ => rfl, fun _ => hU, ?_, ?_, ?_⟩
+          · split <;> simpa using hpop
+          · intro hs
+            have : (topOnly && !(evalMembers (check W ex n) ex st1 (W.req p a v)).2.stack.dropLast.isEmpty) = true := by
+              rw [hto, hpop]
+              cases hst : st.stack with
+              | nil => exact absurd hst hs
+              | cons x xs => rfl
+            rw [if_pos this]
+            simpa [hst1c] using c1
+          · split
+            · exact Or.inl (by simpa [hst1c] using c1)
+            · exact Or.inr ⟨unifyBM bms, rfl, by simp [c1, hst1c]⟩
+
+/-- The cache after a history of top-level queries: every cached key is accepted by the cache-free
+algorithm with fuel `h.length * fuel`, and no assumption is left. -/
+theorem runHist_guard (W : World) (fuel : Nat) (hto : topOnly = true) : ∀ (h : List Query) (st : St) (N : Nat),
+    CacheV W N st.cache → st.stack = [] →
+    CacheV W (N + h.length * fuel) (runHist W fuel st h).cache ∧ (runHist W fuel st h).stack = [] := by
+  intro h
+  induction h with
+  | nil =>
+    intro st N hc hs
+    simp only [runHist, List.foldl_nil, List.length_nil, Nat.zero_mul, Nat.add_zero]
+    exact ⟨hc, hs⟩
+  | cons q h ih =>
+    intro st N hc hs
+    obtain ⟨_, u, s, _, cc⟩ := check_guard W q.ex N hto fuel st q.p q.a q.v hc
+    have hc' : CacheV W (fuel + N) (check W q.ex fuel st q.p q.a q.v).2.cache := by
+      intro e a p v bm hmem
+      have hold : ∀ e a p v bm, ((e, a, p, v), bm) ∈ st.cache → guardVerdict W e (fuel + N) [] p a v = true :=
+        fun e a p v bm hm => guardVerdict_mono W e N (fuel + N) [] [] p a v (by omega) (fun _ h => h) (hc e a p v bm hm)
+      cases cc with
+      | inl h1 => rw [h1] at hmem; exact hold e a p v bm hmem
+      | inr h1 =>
+        obtain ⟨bm', hans, hcache⟩ := h1
+        rw [hcache] at hmem
+        cases List.mem_cons.mp hmem with
+        | inl heq =>
+          cases heq
+          have := u (by rw [hans]; rfl)
+          rw [hs] at this
+          exact this
+        | inr hm => exact hold e a p v bm hm
+    have := ih _ (fuel + N) hc' (by rw [s, hs])
+    simp only [runHist, List.foldl_cons, List.length_cons]
+    have heq : N + (h.length + 1) * fuel = fuel + N + h.length * fuel := by
+      rw [Nat.add_mul]; omega
+    rw [heq]
+    exact this
 
 /-! ### Histories of one process: several Checkers, process-level table -/
 
